@@ -52,7 +52,7 @@ func VH_C09_repeat_in_medium_list() {
 	for i := 0; i < n; i++ {
 		sc.Keys = append(sc.Keys, KeyConfig{ID: "id-" + strconv.Itoa(i), Cipher: "chacha20-ietf-poly1305", Secret: "secret-" + strconv.Itoa(i)})
 	}
-	orig := verifChoice("repeated-key", 3) * (n / 3) // which key is listed again
+	orig := verifChoice("repeated-key", 3) * (n / 3)                                     // which key is listed again
 	at := []int{n, orig + 1 + (n-orig-1)/2, orig + 1}[verifChoice("repeat-position", 3)] // always after the original
 	rep := KeyConfig{ID: "later", Cipher: sc.Keys[orig].Cipher, Secret: sc.Keys[orig].Secret}
 	keys := append([]KeyConfig{}, sc.Keys[:at]...)
